@@ -866,7 +866,12 @@ def gen_type(repo, file, name, opts, unit, em):
 # when the supporting fact does: C18 ("... with extra read-only calls interleaved") rests on C15; C16's "a later successful flush makes
 # every update durable" rests on C03; the statistics (C17), the iterators (C04) and the frame proofs of the read-only calls (C15) are
 # stated for well-formed files (heap_ok / map_ok), which every update (the roots of C05: put_kt, del_kt and what they call) must preserve.
-DERIVED_FROM = {"C18": {"C15"}, "C16": {"C03"}, "C17": {"C05"}, "C04": {"C05"}, "C15": {"C05"}}
+# C14: the bulk calls run the element-wise calls in key order; that this leaves the map the element-wise calls in input order would leave
+# holds because the file-backed map is an ideal map (C01), in which updates of distinct keys commute.
+# C07: "the same call history produces the same results for every table size and buffer setting" holds because the results are those of
+# the ideal map (C01) and of the iterators (C04), both proved for every bucket count and with no assumption on buffer sizes.
+# C10: "keys returned by iteration convert back to what was put" rests on the iterators returning the stored key bytes (C04).
+DERIVED_FROM = {"C18": {"C15"}, "C16": {"C03"}, "C17": {"C05"}, "C04": {"C05"}, "C15": {"C05"}, "C14": {"C01"}, "C07": {"C01", "C04"}, "C10": {"C04"}}
 
 def generate(repo, ov, prop=None, canary=False, only=None):
     """prop: property id -> functions serving it are verified, the others become stubs.
